@@ -93,6 +93,19 @@ def gen(chk):
         for x in coords + xs_valid + [xv ^ 1 for xv in xs_valid] + [r.scalar256() for _ in range(chk.scale(20, 400))]:
             chk.add('ec_pubkey_parse %s' % (bytes([pre]) + b32(x)).hex(), 'pubkey_compressed_x')
             chk.add('xonly_pubkey_parse %s' % h32(x), 'xonly_parse')
+    # coordinates built limb by limb (52-, 26-, 64-bit limb layouts): carry / comparison slips in the
+    # field-element range check need such shapes (probability ~2^-100 for a random x)
+    from props.C05 import limb_value
+    for i in range(chk.scale(700, 20000)):
+        x = limb_value(r)
+        if r.chance(1, 2): x |= ((1 << 256) - 1) ^ ((1 << r.choice([52, 104, 156, 208, 26, 64, 128])) - 1)   # all-ones above a limb boundary
+        chk.add('ec_pubkey_parse %s' % (bytes([2 + r.below(2)]) + b32(x)).hex(), 'pubkey_compressed_limb_pattern')
+        chk.add('xonly_pubkey_parse %s' % h32(x), 'xonly_limb_pattern')
+        if r.chance(1, 4):
+            q = lift_x(x % P) if x < P else None
+            y = q[1] if q else r.scalar256()
+            chk.add('ec_pubkey_parse %s' % (bytes([4]) + b32(x) + b32(y)).hex(), 'pubkey_uncompressed_limb_pattern')
+            chk.add('ec_pubkey_parse %s' % (bytes([4]) + b32(GX) + b32(limb_value(r))).hex(), 'pubkey_uncompressed_limb_pattern_y')
     for pre in (4, 6, 7):
         for q in goodpts + [neg(q) for q in goodpts]:
             for (x, y) in [q, (q[0], q[1] ^ 1), (q[0] ^ 1, q[1]), (q[0] + P if q[0] + P < (1 << 256) else q[0], q[1]), (q[0], (q[1] + P) % (1 << 256) if q[1] + P < (1 << 256) else q[1]), (q[0], 0), (0, q[1]), (P, q[1]), (q[0], P)]:
